@@ -84,6 +84,38 @@ fn pool(r: &mut Rng) -> Vec<Value> {
     v
 }
 
+/// objects keyed by the PRIVATE TOKENS through which `Number` (arbitrary_precision) and `RawValue` (raw_value) travel through
+/// serde's data model: `{"$serde_json::private::Number": payload}` alone, with a second key after / before it, inside an array,
+/// as a struct field of type `Value` / `Number` / `Map`. The `Value` is built by `Map::insert` (no deserializer involved), so it
+/// really is an object; what the three deserializers make of it must still be the same thing.
+#[cfg(any(feature = "ap", feature = "rv"))]
+fn token_values() -> Vec<Value> {
+    let mut toks: Vec<&str> = vec![];
+    if cfg!(feature = "ap") { toks.push("$serde_json::private::Number"); }
+    if cfg!(feature = "rv") { toks.push("$serde_json::private::RawValue"); }
+    let payloads = [json!("123"), json!("abc"), json!(5), json!(null), json!("-1.5e300"), json!("18446744073709551616"), json!("0.25"), json!("-0"), json!("1e5"),
+                    json!(" 1"), json!("1 "), json!(""), json!("[1"), json!("[1, 2]"), json!("{\"a\":1}"), json!("\"s\""), json!("true"), json!(["1"]), json!({"a": "1"}), json!(true)];
+    let obj = |ps: &[(&str, Value)]| { let mut m = Map::new(); for (k, v) in ps { m.insert(k.to_string(), v.clone()); } Value::Object(m) };
+    let mut out = vec![];
+    for t in toks {
+        for p in payloads.iter() {
+            let one = obj(&[(t, p.clone())]);
+            out.push(one.clone());
+            out.push(obj(&[(t, p.clone()), ("~", json!(null))]));                  // a second key after the token
+            out.push(obj(&[("!", json!(1)), (t, p.clone())]));                     // the token is not the first key
+            out.push(Value::Array(vec![json!(null), one.clone()]));
+            out.push(Value::Array(vec![one.clone(), json!(7), one.clone()]));
+            out.push(obj(&[("n", one.clone()), ("m", obj(&[("k", one.clone())]))]));           // `WithNumber { n: Number, m: Map }`
+            out.push(obj(&[("n", json!(1)), ("m", one.clone()), ("skip", one.clone())]));
+            out.push(obj(&[("id", json!(7)), ("payload", one.clone())]));
+            out.push(obj(&[(t, one.clone())]));                                    // the payload is itself a token object
+        }
+    }
+    out
+}
+#[cfg(any(feature = "ap", feature = "rv"))]
+const TOKEN_TYPES: &[&str] = &["value", "jsonmap", "vec-number", "withnumber", "number", "opt-number", "ignored", "map-valkey-enum"];
+
 /// a value that (mostly) fits the target type, with near misses: keys in alternative spellings, values of the neighbouring kind
 fn fit(ty: &str, r: &mut Rng) -> Value {
     let obj = |r: &mut Rng, keys: &[&str], val: &dyn Fn(&mut Rng) -> Value| { let mut m = Map::new(); for _ in 0..r.below(4) { m.insert(r.pick(keys).to_string(), val(r)); } Value::Object(m) };
@@ -137,6 +169,15 @@ pub fn run(sink: &mut Sink, thorough: bool, seed: u64) {
                     let o = run_type(ty, &v, &text);
                     sink.case("c16x", &[&cfg, ty, &enc(&v)], &o, &format!("c16x:{}:deep{}", ty, depth), true);
                 }
+            }
+        }
+        #[cfg(any(feature = "ap", feature = "rv"))]
+        for v in token_values() {
+            let text = serde_json::to_string(&v).unwrap();
+            for ty in TOKEN_TYPES {
+                let o = run_type(ty, &v, &text);
+                let class = if o.contains("PANIC") { "panic" } else if o.starts_with("OK") { "ok" } else { "err" };
+                sink.case("c16x", &[&cfg, ty, &enc(&v)], &o, &format!("c16x:{}:token:{}", ty, class), true);
             }
         }
         for ty in TYPES {
